@@ -345,7 +345,9 @@ namespace smt
             return at_expr->second;
         else
         { // we need to create a new variable..
-            const auto ctr = new_at_most_one(ls);
+            const auto ctr = lit(new_var());
+            if (!new_clause({!ctr, new_at_most_one(ls)})) // the at-most-one literal is shared through the cache: it must not get the at-least-one clause..
+                return FALSE_lit;
             ls.push_back(!ctr);
             if (!new_clause(std::move(ls)))
                 return FALSE_lit;
